@@ -257,6 +257,7 @@ def checked(s, timeout_ms, vars_=(), size=0):
     pid = os.fork()
     if pid == 0:
         try:
+            _die_with_parent()
             os.close(rd)
             signal.setitimer(signal.ITIMER_REAL, 0)
             try:
@@ -576,8 +577,17 @@ def _job(a):
                     validations=[], samples=[], queries=0, wall_s=0, kind='?', prop=_CASES[name].prop)
 
 
+def _die_with_parent():
+    "ask the kernel to kill this process when its parent dies (a check killed by a timeout must not leave workers behind)"
+    try:
+        ctypes.CDLL(None).prctl(1, signal.SIGKILL)        # PR_SET_PDEATHSIG
+    except Exception:
+        pass
+
+
 def _worker(tasks, out):
     import gc
+    _die_with_parent()
     while True:
         t = tasks.get()
         if t is None:
